@@ -19,7 +19,9 @@ let c14_table : (string * (Z.t list -> Z.t list option)) list = Model.[
   "ext2sq", run_ext2sq; "ext4sq", run_ext4sq; "ext5sq", run_ext5sq;
   "const_w", run_const_w; "const_dth", run_const_dth ]
 
-let tables = [ "c14", c14_table ]
+let c01_table : (string * (Z.t list -> Z.t list option)) list = Model.[ "prog", run_prog ]
+
+let tables = [ "c14", c14_table; "c01", c01_table ]
 
 let split_ws s = List.filter (fun x -> x <> "") (String.split_on_char ' ' s)
 
@@ -29,6 +31,7 @@ let () =
   let ic = open_in file in
   let n = ref 0 and bad = ref 0 and lineno = ref 0 in
   let counts = Hashtbl.create 64 in
+  let skipped = Hashtbl.create 64 in
   (try
      while true do
        let line = input_line ic in
@@ -41,15 +44,22 @@ let () =
          (match lhs with
           | [] -> ()
           | op :: args ->
-            let f = try List.assoc op table with Not_found -> (fun _ -> None) in
-            let res = (try show (f (List.map z args)) with Stack_overflow -> "stack_overflow") in
-            incr n;
-            Hashtbl.replace counts op (1 + try Hashtbl.find counts op with Not_found -> 0);
-            if res <> rhs then begin
-              incr bad;
-              if !bad <= 50 then Printf.printf "MISMATCH %d | %s | model: %s\n" !lineno line res
-            end)
+            (match List.assoc_opt op table with
+             | None -> Hashtbl.replace skipped op (1 + try Hashtbl.find skipped op with Not_found -> 0)
+             | Some f ->
+               (* a trailing `# comment` on the line is not part of the result *)
+               let rhs = match String.index_opt rhs '#' with
+                 | Some j -> String.trim (String.sub rhs 0 j) | None -> rhs in
+               let res = (try show (f (List.map z args)) with Stack_overflow -> "stack_overflow") in
+               incr n;
+               Hashtbl.replace counts op (1 + try Hashtbl.find counts op with Not_found -> 0);
+               if res <> rhs then begin
+                 incr bad;
+                 let short s = if String.length s > 300 then String.sub s 0 300 ^ "..." else s in
+                 if !bad <= 50 then Printf.printf "MISMATCH %d | %s | model: %s\n" !lineno (short line) (short res)
+               end))
      done
    with End_of_file -> ());
   Hashtbl.iter (fun op c -> Printf.printf "COUNT %s %d\n" op c) counts;
+  Hashtbl.iter (fun op c -> Printf.printf "SKIPPED %s %d\n" op c) skipped;
   Printf.printf "TOTAL %d MISMATCHES %d\n" !n !bad
